@@ -191,7 +191,7 @@ impl Gen {
     format!("o{k}.js")
   }
 
-  fn lines_of(text: &str) -> Vec<&str> {
+  pub fn lines_of(text: &str) -> Vec<&str> {
     let mut v = vec![];
     let mut rest = text;
     while !rest.is_empty() {
@@ -497,7 +497,8 @@ pub fn generate(kind: &str, seed: u64, count: usize, out: &str) {
   let cfg = match kind {
     "stream_any" | "views" => Cfg::any(),
     "replace_hist" => Cfg { depth: 1, wild_maps: false, ..Cfg::any() },
-    "laws" | "concat_children" | "replace_inner" => Cfg { depth: 2, ..Cfg::ascii() },
+    "orig_trees" => Cfg { sms: false, cached_under_replace: false, depth: 4, max_text: 30, ..Cfg::ascii() },
+    "laws" | "concat_children" | "replace_inner" | "sms_leaf" => Cfg { depth: 2, ..Cfg::ascii() },
     _ => Cfg::ascii(),
   };
   let mut g = Gen::new(seed, cfg);
@@ -563,6 +564,46 @@ pub fn generate(kind: &str, seed: u64, count: usize, out: &str) {
         steps.push(json!({"op": "build", "dst": 1, "tree": rhs}));
         steps.extend(obs_all(1));
         steps.push(json!({"op": "law", "law": "same", "a": 0, "b": 1}));
+      }
+      "sms_leaf" => {
+        // one map-carrying leaf, served by SourceMapSource and by the
+        // public default helper, directly and inside a ConcatSource
+        let t = g.text(30);
+        let ns = g.rng.gen_range(1..=3);
+        let nn = g.rng.gen_range(0..=2);
+        let mut segs = g.segs_for(&t, ns, nn, false);
+        // zero-width segments at the end of a line / of the text
+        if g.rng.gen_bool(0.3) {
+          let lines = Gen::lines_of(&t);
+          if !lines.is_empty() {
+            let li = g.rng.gen_range(0..lines.len());
+            let col = lines[li].len() as i64;
+            segs.push(((li + 1) as i64, col, 0, 1, 1, -1));
+            segs.sort_by_key(|s| (s.0, s.1));
+            segs.dedup_by_key(|s| (s.0, s.1));
+          }
+        }
+        let first = g.rng.gen_range(0..3);
+        let m = g.map_json(&segs, ns, nn, first);
+        let leaf = json!({"k": "sms", "b": bytes_json(t.as_bytes()), "name": bytes_json(b"gen.js"),
+                          "map": m.clone(), "inner": [], "osrc": [], "remove": false});
+        let dflt = json!({"k": "default", "b": bytes_json(t.as_bytes()), "map": [m]});
+        let four = |r: u64| vec![stream(r, true, false), stream(r, false, false),
+                                 stream(r, true, true), stream(r, false, true)];
+        let pre = g.text(6);
+        steps = vec![json!({"op": "build", "dst": 0, "tree": leaf})];
+        steps.extend(four(0));
+        steps.extend(obs_all(0));
+        steps.push(json!({"op": "build", "dst": 1, "tree": dflt}));
+        steps.extend(four(1));
+        steps.extend(obs_all(1));
+        steps.push(json!({"op": "build", "dst": 3, "tree": {"k": "raw", "sub": "str", "b": bytes_json(pre.as_bytes())}}));
+        steps.extend(obs_all(3));
+        let which = if g.rng.gen_bool(0.5) { 0 } else { 1 };
+        steps.push(json!({"op": "build", "dst": 2, "tree": {"k": "concat", "mode": "boxed",
+                          "ch": [{"k": "reg", "r": 3}, {"k": "reg", "r": which}]}}));
+        steps.extend(obs_all(2));
+        steps.push(json!({"op": "law", "law": "concat_children", "r": 2, "children": [3, which]}));
       }
       "replace_inner" => {
         let inner = steps[0]["tree"].clone();
